@@ -210,6 +210,11 @@ class USub(Base):           # undecorated subclass with an extra field
     w: Any = 9
 
 
+@dataclass(eq=False)
+class Leaf(Sub):            # third level (undecorated, below the decorated subclass)
+    pass
+
+
 @symbol
 class Hand:                 # hand-written __init__
     init_calls = 0
@@ -295,7 +300,7 @@ class Made2(View):
         return f"Made2({self.a!r},{self.b!r})"
 
 
-CLASSES = {c.__name__: c for c in (Item, Other, Base, Sub, USub, Hand, Holder, View, Made, Made2, Part, Rev, VItem, Dflt,
+CLASSES = {c.__name__: c for c in (Item, Other, Base, Sub, USub, Leaf, Hand, Holder, View, Made, Made2, Part, Rev, VItem, Dflt,
                                            Hand0)}
 
 
